@@ -1,4 +1,5 @@
-CONSTANTS MaxHist = 30
+CONSTANTS Streams = {"s1", "s2", "s3"}
+ MaxHist = 30
  EmitAt = 99
 INIT Init
 NEXT Next
